@@ -45,47 +45,47 @@ _GEN = ("generated histories on a real App with 2-3 stored scripted codes and th
         "the out-of-band invocation trace, the fully decoded root dump and a hash of the raw root storage are observed; ")
 
 PROPS = {
-    "C01": _entry("C01", "CwMt.Props.C01", [("wasm", 8000, 80000)], "pred_c01",
+    "C01": _entry("C01", "CwMt.Props.C01", [("wasm", 8000, 300000)], "pred_c01",
                   "Lean 4 theorems over the engine model (atomicity of the four entry points, order/length of execute_multi, fuel irrelevance by mutual induction) + differential correspondence through all entry points",
                   "Atomicity and ordering are theorems about App.execute/execute_multi/sudo/wasm_sudo of the Lean engine model for every state, contract behaviour and failure point; the model is tied to the real App by comparing complete transcripts (responses, trace, decoded dump) on generated trees with injected failures, and a model-free predicate checks byte-identical raw storage after every Err.",
                   _GEN + "a case is non-trivial if it contains both a failed and a successful transaction", nt="nt_wasm_err"),
-    "C02": _entry("C02", "CwMt.Props.C02", [("wasm", 8000, 80000)], "pred_c02",
+    "C02": _entry("C02", "CwMt.Props.C02", [("wasm", 8000, 300000)], "pred_c02",
                   "Lean 4 theorems over the engine model (state seen after a failed / successful sub-message, caught-iff, propagation) + differential correspondence on message trees with failures and all reply_on modes",
                   "The rollback discipline of execute_submsg/process_response/reply is proved on the model for arbitrary depth and partial progress; correspondence compares final dumps and traces of generated trees where every edge has a random reply_on and random nodes fail; the model-free predicate checks that unique markers written by certainly-failing calls never persist.",
                   _GEN + "non-trivial = at least one reply handler was invoked", nt="nt_wasm"),
-    "C03": _entry("C03", "CwMt.Props.C03", [("wasm", 8000, 80000)], "pred_c03",
+    "C03": _entry("C03", "CwMt.Props.C03", [("wasm", 8000, 300000)], "pred_c03",
                   "Lean 4 theorems over the engine model's ghost invocation trace (exactly one reply entry iff outcome/mode demand it, on the dispatcher, right after the sub-message, with id/payload/result) + differential correspondence of traces",
                   "Reply invocation is proved against the trace the model engine emits; the real trace recorded out-of-band by scripted contracts (also for rolled-back calls) must equal it on every generated tree; the model-free predicate checks mode/outcome consistency and at-most-once per sub-message id.",
                   _GEN + "sub-message ids are unique per case; non-trivial = at least one reply handler was invoked", nt="nt_wasm"),
-    "C04": _entry("C04", "CwMt.Props.C04", [("wasm", 6000, 60000), ("wasm-resp", 2000, 20000)], "pred_c04",
+    "C04": _entry("C04", "CwMt.Props.C04", [("wasm", 6000, 200000), ("wasm-resp", 2000, 60000)], "pred_c04",
                   "Lean 4 theorems (event composition of build_app_response / sub-message folding, bank event, invertibility of the protobuf encoders incl. varint) + byte-exact differential correspondence of events and data",
                   "The composition rules are the model's definitions, pinned by theorems, and the wire encoders are proved invertible; byte-exact comparison of AppResponse.events/.data and of what every reply received ties them to the code over generated trees with attributes, custom events and data present/absent/empty.",
                   _GEN + "non-trivial = at least one reply handler was invoked", nt="nt_wasm"),
-    "C05": _entry("C05", "CwMt.Props.C05", [("wasm", 8000, 80000), ("wasm-bech", 1500, 15000)], "pred_c05",
+    "C05": _entry("C05", "CwMt.Props.C05", [("wasm", 8000, 300000), ("wasm-bech", 1500, 40000)], "pred_c05",
                   "Lean 4 theorems over the ghost trace (sender authenticity and environment by mutual induction over the engine; funds moved before the call; insufficient funds => no call) + differential correspondence of recorded (sender, funds, address, block)",
                   "Sender authenticity and environment are proved for every entry in the trace of any execution of the model; the scripted contracts record what the real engine told them and the transcripts must agree, with blocks changed between transactions.",
                   _GEN + "non-trivial = at least one reply handler was invoked", nt="nt_wasm"),
-    "C08": _entry("C08", "CwMt.Props.C08", [("wasm-iso", 4000, 40000), ("wasm-legacy", 1500, 15000), ("wasm", 3000, 30000)], "pred_c08",
+    "C08": _entry("C08", "CwMt.Props.C08", [("wasm-iso", 4000, 120000), ("wasm-legacy", 1500, 40000), ("wasm", 3000, 100000)], "pred_c08",
                   "Lean 4 theorems (byte-level disjointness of contract key spaces from the C07 prefix theorems; engine-level frame: only invoked contracts' windows change, by mutual induction) + differential correspondence of all storage views",
                   "Disjointness holds for all key bytes by the prefix-code theorems; non-interference of whole executions is proved on the engine model; the four views (contract reads, raw query, dump_wasm_raw, contract_storage) and bank/registry dumps are compared with the model after contracts write adversarial keys.",
                   "contracts created from the same and different codes write keys crafted to look like other modules' raw prefixes (bank balances, contract registry, wasm namespace, empty key, 00/ff); after every transaction dump_wasm_raw, contract_storage().range, WasmQuery::Raw, smart-query range and contract_data of every contract plus bank balances are observed; slice wasm-legacy repeats this on an App with a permissive Api and a custom AddressGenerator handing out contract0..contract12, so that one address is a strict prefix of another and keys spell the tail of the longer sibling"),
-    "C10": _entry("C10", "CwMt.Props.C10", [("wasm", 8000, 80000)], "pred_c10",
+    "C10": _entry("C10", "CwMt.Props.C10", [("wasm", 8000, 300000)], "pred_c10",
                   "Lean 4 theorems (query has no state output by type; the snapshot a contract gets is the enclosing transaction's current state) + differential correspondence of query answers recorded mid-transaction, each App query issued twice and bracketed by raw-storage hashes",
                   "Purity is a typing fact of the model and visibility is proved on the engine; contracts issue bank/raw/smart/info/code queries at random points of generated trees (after funds transfer, after completed and after caught-failed sub-messages) and their recorded answers must equal the model's.",
                   _GEN + "App-level queries are asked twice and bracketed by raw hashes", nt="nt_wasm"),
-    "C11": _entry("C11", "CwMt.Props.C11", [("wasm-codes", 4000, 40000), ("wasm-bech-codes", 1500, 15000), ("wasm", 3000, 30000)], "pred_c11",
+    "C11": _entry("C11", "CwMt.Props.C11", [("wasm-codes", 4000, 120000), ("wasm-bech-codes", 1500, 40000), ("wasm", 3000, 100000)], "pred_c11",
                   "Lean 4 theorems (registry invariant, auto/explicit ids, usability of any stored id, fresh address, classic/salted address inputs, salted repeat rejected, recorded metadata) + differential correspondence on store/duplicate/instantiate(2) histories",
                   "Identifier and address discipline is proved on the registry/registration model with the address generators as parameters; histories with non-contiguous ids, id 0, duplicates, u64::MAX, salts, repeats, failing and rolled-back instantiations are run on the real App and compared.",
                   "2-6 store_code / store_code_with_id (ids 0,1,2,3,5,10,11,40,u64::MAX) / duplicate_code calls, then 3-9 instantiate / instantiate2 (salts aa, bb, empty, 65 bytes; repeats) of stored and unknown ids with failing scripts, nested instantiations, insufficient funds, empty labels; CodeInfo for every id; migrate to non-contiguous ids; codes carrying their own checksum (Contract::checksum); slice wasm-bech-codes repeats the histories on an App built with MockApiBech32(\"juno\")"),
-    "C12": _entry("C12", "CwMt.Props.C12", [("wasm-admin", 4000, 40000), ("wasm", 3000, 30000)], "pred_c12",
+    "C12": _entry("C12", "CwMt.Props.C12", [("wasm-admin", 4000, 120000), ("wasm", 3000, 100000)], "pred_c12",
                   "Lean 4 theorems (authorisation of Migrate/UpdateAdmin/ClearAdmin, exact effect and immediacy of admin changes, migration runs the newly recorded code on the existing storage) + differential correspondence on admin histories",
                   "Authorisation is proved for every sender and state on the model; sequences of admin operations by admins, former admins, strangers and contracts acting via sub-messages are run on the real App, with code tags making the serving code observable.",
                   "4-15 Migrate / UpdateAdmin / ClearAdmin attempts by u1,u2,u3,unknown on contracts with admin u1 / none / u2 (optionally a contract as admin), directly and through sub-messages with all reply_on modes; ContractInfo of all contracts after every attempt; final calls reveal the serving code"),
-    "C13": _entry("C13", "CwMt.Props.C13", [("wasm-resp", 5000, 50000), ("wasm", 3000, 30000)], "pred_c13",
+    "C13": _entry("C13", "CwMt.Props.C13", [("wasm-resp", 5000, 150000), ("wasm", 3000, 100000)], "pred_c13",
                   "Lean 4 theorems (trim specification, acceptance predicate iff, values never matter, malformed response = error at every entry point, accepted strings unchanged) + differential correspondence with strings over Unicode whitespace / underscores / length boundaries at all entry points",
                   "The validation predicate is proved equivalent to its specification on the model for all strings; the model's trim (Unicode White_Space set written out) is tied to Rust's str::trim by correspondence on attribute keys/values and event types placed at execute, instantiate, reply, sudo and migrate, at depth.",
                   "scripts whose attributes/events draw keys and types from ASCII, '_', Unicode White_Space code points, near-misses (U+200B, U+FEFF, U+180E), multi-byte letters, lengths 0-2 after trimming; placed at all five entry points and inside sub-messages"),
-    "C19": _entry("C19", "CwMt.Props.C19", [("wasm-det", 2000, 20000)], "pred_c19",
+    "C19": _entry("C19", "CwMt.Props.C19", [("wasm-det", 2000, 40000)], "pred_c19",
                   "Lean 4 theorem (interleaving two instances = running each alone; ids are functions of the instance's registry) + differential correspondence: every history run on a fresh App, again on a second App interleaved with a different history on a third, all transcripts equal to one pure model run; source scan for impure constructs",
                   "Determinism of a Lean function is by construction, so the proved part is the non-interference specification; the claim about the code is carried by comparing complete transcripts of repeated and interleaved runs with the pure model (partial by nature: wall-clock, allocator and dependency-global state are outside the model).",
                   "history H1 on App 1; then H1 on App 2 interleaved at random points with a different history H2 on App 3; predicate: transcripts of H1 on App 1 and App 2 identical; all three equal to the model"),
